@@ -428,6 +428,19 @@ pub fn run(mut run: Run) -> i32 {
         chk!("Triangle<i64> contains Coord", ti.contains(&ci(d)), ex_pos == 2);
         chk!("Triangle<i64>::coordinate_position", pos3(ti.coordinate_position(&ci(d))), ex_pos);
         chk!("Triangle<f64> as Polygon intersects Coord", tf.to_polygon().intersects(&cf(d)), ex_pos != 0);
+        // signed zeros: the same inputs with every zero coordinate written as -0.0 denote the same real numbers
+        if idx % nq == 0 {
+            let nz = |p: (i64, i64)| Coord { x: if p.0 == 0 { -0.0 } else { p.0 as f64 }, y: if p.1 == 0 { -0.0 } else { p.1 as f64 } };
+            for (which, pts) in [("all", [nz(a), nz(b), nz(c)]), ("first", [nz(a), cf(b), cf(c)]), ("second", [cf(a), nz(b), cf(c)]), ("third", [cf(a), cf(b), nz(c)])] {
+                let w = match LineString::new(vec![pts[0], pts[1], pts[2], pts[0]]).winding_order() {
+                    Some(WindingOrder::CounterClockwise) => 1,
+                    Some(WindingOrder::Clockwise) => -1,
+                    None => 0,
+                };
+                chk!("winding_order with zero coordinates written as -0.0", (which, w), (which, s as i32));
+                chk!("orient2d with zero coordinates written as -0.0", (which, osign(<f64 as GeoNum>::Ker::orient2d(pts[0], pts[1], pts[2]))), (which, s as i32));
+            }
+        }
         chk!("Triangle<f64> as Polygon coordinate_position", pos3(tf.to_polygon().coordinate_position(&cf(d))), ex_pos);
     });
     let nw = run.acc.counters.get("naive_formula_wrong").cloned().unwrap_or(0);
